@@ -23,9 +23,9 @@ CHECKS = {
     "C06": dict(
         category="model_checking",
         technique="TLA+ spec Capture (writer / pipe / pump thread / copier thread with its four-step append on a buffer with one shared file position / polling reader; all interleavings) checked by TLC for PrefixAlways, Complete, BufferExact, EOFOnlyAfterAll, NoDeadlock and Termination under per-thread fairness; real captured commands run while the schedule points of the capture path delay chosen threads; the value the caller receives judged by Capture!ObsJudge (CaptureObsTrace) and the recorded schedule-point events validated against CaptureTrace by TLC",
-        text="TLC decides the design for every interleaving of the four threads at the granularity of the code's own steps (and refutes it when the reader may run inside the copier's append - the defect this check found and /repo now repairs). The code is bound in two ways: hundreds of real captures (7 payload kinds x 10 sizes around the 1024-byte read size and the 64 KiB pipe buffer x chunkings, exit codes and timings x 6 stage compositions x threaded/unthreaded/default x $(), !().out/.raw_out/.rtn, iteration) run while one or two of 13 schedule points are delayed, each compared byte for byte with what the final stage was told to write, with a pipe standing in for the terminal that must stay empty; and the events recorded at the schedule points of the threaded runs must be a behaviour of CaptureTrace (bytes conserved pipe -> queue -> buffer -> caller, append never interleaved, saved position never rewound, drained only when everything put was written).",
+        text="TLC decides the design for every interleaving of the four threads at the granularity of the code's own steps (and refutes it when the reader may run inside the copier's append - the defect this check found and /repo now repairs). The code is bound in two ways: hundreds of real captures (8 payload kinds x 10 sizes around the 1024-byte read size and the 64 KiB pipe buffer x chunkings, exit codes and timings x 6 stage compositions x threaded/unthreaded/default x $(), !().out/.raw_out/.rtn, iteration) run while one or two of 13 schedule points are delayed, each compared byte for byte with what the final stage was told to write, with a pipe standing in for the terminal that must stay empty; and the events recorded at the schedule points of the threaded runs must be a behaviour of CaptureTrace (bytes conserved pipe -> queue -> buffer -> caller, append never interleaved, saved position never rewound, drained only when everything put was written).",
         design_ref="3/C06",
-        note="Trusts TLC; schedules are perturbed by delays at the hook points rather than fully controlled (hook guard XONSH_XONSH_VERIF=1); hang = 60 s. One defect repaired (fix: commit), two text-view defects are known findings.",
+        note="Trusts TLC; schedules are perturbed by delays at the hook points rather than fully controlled (hook guard XONSH_XONSH_VERIF=1); hang = 60 s. Three defects repaired (fix: commits: reader inside the copier's append, per-read decoding of multi-byte characters / CRLF, lone CR inside a line), two text-view defects about escape sequences are known findings.",
     ),
     "C17": dict(
         category="model_checking",
@@ -39,7 +39,7 @@ CHECKS = {
         technique="TLA+ spec Quote (the judgement Complete(name, opening style, typed, closing-quote-after) -> reads back; reference of which quoting styles can denote a name; named deviations keyed on name features) checked by TLC over every name up to length 3 of an 18-symbol alphabet; every name becomes a real file/directory, the real completer's insertion is spliced into the line and the line is executed with a recording alias; outcomes validated against QuoteTrace by TLC; completion-context analyser run on every cursor of hostile and completed lines",
         text="TLC checks ReadsBack and Satisfiable on Quote and, as a self-test, refutes ReadsBack with each listed deviation enabled; the real path completer is then exercised on every name up to length 2 (quick) / 3 (thorough) over 17 symbols plus thousands of longer names over 37 symbols (spaces, both quotes, $, backslash, newline/tab, !, glob and shell metacharacters, leading ~ - # = :, keywords), five opening-quote styles, typed prefixes, closing quote already present, files and directories - and the completed line is *executed*, so an expected string that is itself wrong cannot hide; a failing case must be explained by a listed deviation whose enabling condition (features of the name and opening style) holds, otherwise it is a violation. The analyser is run on >10k (text, cursor) pairs: no exception, prefix/suffix reproduce the text.",
         design_ref="3/C18",
-        note="Trusts TLC, the splice rule line[:cursor-prefix_len]+completion+line[cursor:], and executing the line as the meaning of the inserted text; names without `/` and NUL; nine quoting defect classes are known findings.",
+        note="Trusts TLC, the splice rule line[:cursor-prefix_len]+completion+line[cursor:], and executing the line as the meaning of the inserted text; names without `/` and NUL; ten quoting / word-splitting defect classes are known findings.",
     ),
     "C03": dict(
         category="model_checking",
